@@ -76,6 +76,8 @@ finding(["C08","C07"], "EC", "tensor.(StdEng).prepReduce#Reshape1", "prepReduce 
 
 finding(["C16"], "S11", "tensor.(*AP).setDataOrder", "setDataOrder (called by handleFuncOpts on the reuse tensor) flips the column-major bit and keeps the row-major strides: Add(colA, colB, WithReuse(rowR)) returns flag ColMajor with strides [3 1]; At(0,1)=13 instead of 11", "flag flipped, strides kept", 40)
 
+finding(["C12","C07"], "P3", "tensor.(StdEng).Map", "StdEng.Map with a caller-supplied reuse tensor maps over reuse's previous contents (the operand is never copied into it): Apply(x2, WithReuse([10,20,30])) = [20,40,60]", "2 of 10 kernel paths", 22)
+
 # ---- engine L (layout predicates) ------------------------------------------------------------
 finding(["C12","C16","C07","C06","C11","C04"], "L0", "tensor.prepDataUnary#useIter",
         "prepDataUnary has no data-order term: Neg(colA, WithIncr(rowZeros)) adds raw column-major data into a row-major buffer (non-incr reuse is compensated by handleFuncOpts giving reuse the operand's order)",
